@@ -44,13 +44,16 @@ HelperLine(id, fn, args, exp, sc) ==
 \* ---- the pinned domain of the statement
 \* path shape: "odd" when it has an empty segment, a trailing unescaped dot or a trailing lone backslash
 RECURSIVE ShapeLoop(_, _, _, _)
-ShapeLoop(s, i, sliceEmpty, escape) ==
-  IF i > Len(s) THEN (IF escape \/ sliceEmpty THEN "odd" ELSE "ok")
+\* lastDelim: the previous character was an unescaped dot
+ShapeLoop(s, i, lastDelim, escape) ==
+  IF i > Len(s) THEN (IF escape \/ lastDelim THEN "odd" ELSE "ok")
   ELSE IF escape THEN ShapeLoop(s, i + 1, FALSE, FALSE)
-  ELSE IF s[i] = 92 THEN ShapeLoop(s, i + 1, sliceEmpty, TRUE)
-  ELSE IF s[i] = 46 THEN (IF sliceEmpty THEN "odd" ELSE ShapeLoop(s, i + 1, TRUE, FALSE))
+  ELSE IF s[i] = 92 THEN ShapeLoop(s, i + 1, FALSE, TRUE)
+  ELSE IF s[i] = 46 THEN ShapeLoop(s, i + 1, TRUE, FALSE)
   ELSE ShapeLoop(s, i + 1, FALSE, FALSE)
-PathShape(s) == IF s = <<>> THEN "ok" ELSE ShapeLoop(s, 1, TRUE, FALSE)
+\* a path is left open by the statement only when it ENDS in an unescaped dot or in a lone backslash; an empty
+\* segment elsewhere ("a..b", ".a") simply names the key ""
+PathShape(s) == IF s = <<>> THEN "ok" ELSE ShapeLoop(s, 1, FALSE, FALSE)
 \* an index segment must be the canonical decimal text of its integer ("+1", "01", "-0" are left open)
 CanonicalSeg(seg) ==
   LET ix == ParseI64(seg)
